@@ -5,6 +5,7 @@ import (
 	"github.com/uhppoted/uhppote-core/types"
 	"net"
 	"os"
+	"runtime/debug"
 	"strings"
 	"sync"
 	"syscall"
@@ -171,6 +172,70 @@ func runGenerous(c scenario) *rp.Fail {
 	}
 	if now := farm.Sockets(); now > socketsBefore {
 		return rp.Failf("generous-timeout/socket-left-open", "%s over %s with a timeout of %v: %d sockets before the call, %d one second after it returned", c.Op, c.Path, time.Duration(c.TimeoutMs)*time.Millisecond, socketsBefore, now)
+	}
+	return nil
+}
+
+// argument-sockets: every operation with arguments that name addresses (listener 0.0.0.0:port, a listener on another host, an
+// address / gateway on this host's own loopback network) against a prompt controller with a configured address, a few times
+// in a row with the garbage collector switched off: when a call has returned, the process holds exactly the sockets it held
+// before - a descriptor that would only be closed by a finalizer is a descriptor left behind. (Path: udp | tcp | broadcast.)
+func runArgSockets(c scenario) *rp.Fail {
+	f := farm.New()
+	defer f.Close()
+	ip := [4]byte{127, 0, 8, 14}
+	serial := uint32(405419896)
+	cfg := hook.ClientCfg{TimeoutMs: c.TimeoutMs, BindIP: [4]byte{127, 0, 0, 1}, Debug: c.Debug}
+	switch c.Path {
+	case "tcp":
+		e, err := f.TCP(ip, 0, farm.ScriptTCP(func(r farm.Received) []farm.Action { return []farm.Action{{Data: reply(r.Data)}} }))
+		if err != nil {
+			return nil
+		}
+		cfg.Devices = []hook.DeviceCfg{{Serial: serial, HasAddr: true, IP: ip, Port: e.Addr.Port(), Protocol: "tcp"}}
+	case "udp":
+		e, err := f.UDP(ip, 0, farm.Script(func(r farm.Received) []farm.Action { return []farm.Action{{Data: reply(r.Data)}} }))
+		if err != nil {
+			return nil
+		}
+		cfg.Devices = []hook.DeviceCfg{{Serial: serial, HasAddr: true, IP: ip, Port: e.Addr.Port(), Protocol: "udp"}}
+	default:
+		e, err := f.UDP(ip, 0, farm.Script(func(r farm.Received) []farm.Action { return []farm.Action{{Data: reply(r.Data)}} }))
+		if err != nil {
+			return nil
+		}
+		cfg.HasBroadcast, cfg.BroadcastIP, cfg.BroadcastPort = true, ip, e.Addr.Port()
+	}
+	u := hook.Real(cfg)
+	variants := []func(cs *api.Case){
+		func(cs *api.Case) { cs.Call.Listener, cs.Call.Port = [4]byte{0, 0, 0, 0}, 60001 },
+		func(cs *api.Case) { cs.Call.Listener, cs.Call.Port = [4]byte{0, 0, 0, 0}, 0 },
+		func(cs *api.Case) { cs.Call.Listener, cs.Call.Port = [4]byte{127, 0, 8, 15}, 60001 },
+		func(cs *api.Case) { cs.Call.Listener, cs.Call.Port = [4]byte{255, 255, 255, 255}, 60001 },
+		func(cs *api.Case) {
+			cs.Call.Address, cs.Call.Gateway = [4]byte{127, 0, 8, 16}, [4]byte{127, 0, 0, 1}
+		},
+	}
+	old := debug.SetGCPercent(-1)
+	defer debug.SetGCPercent(old)
+	before := farm.Sockets()
+	for round := 0; round < 4; round++ {
+		for k, vary := range variants {
+			cs := call(c.Op, serial)
+			vary(&cs)
+			res := api.Invoke(u, cs)
+			if res.Panic != nil {
+				return rp.Failf("argument-sockets/panic", "%s (argument variant %d) panicked: %v", c.Op, k, res.Panic)
+			}
+			// (the simulated controller's end of a TCP connection is a socket of this process too: it goes when the controller has seen
+			// the client close - a moment later)
+			for i := 0; i < 60 && farm.Sockets() != before; i++ {
+				time.Sleep(25 * time.Millisecond)
+			}
+			if now := farm.Sockets(); now != before {
+				return rp.Failf("argument-sockets/socket-left-open", "%s over %s with argument variant %d (0: listener 0.0.0.0:60001, 1: 0.0.0.0:0, 2: a listener on another address, 3: 255.255.255.255:60001, 4: address / gateway on the loopback network) returned (%v); the process held %d sockets before the call and holds %d 1.5 s later (garbage collector off: nothing is closed behind the call's back)", c.Op, c.Path, k, res.Err, before, now)
+			}
+		}
 	}
 	return nil
 }
@@ -511,6 +576,8 @@ func runScenario(c scenario, scale int) *rp.Fail {
 		return runMulticast(c, scale)
 	case "generous-timeout":
 		return runGenerous(c)
+	case "argument-sockets":
+		return runArgSockets(c)
 	}
 	u := hook.Real(cfg)
 	t0 := time.Now()
@@ -658,7 +725,7 @@ func runSendFails(c scenario, scale int) *rp.Fail {
 }
 
 func checkScenario(c scenario) *rp.Fail {
-	if c.Kind == "port-released" || c.Kind == "send-fails" || c.Kind == "late-wrong-reply" || c.Kind == "tcp-peer-holds-connection" || c.Kind == "no-descriptors" || c.Kind == "multicast-broadcast" || c.Kind == "generous-timeout" {
+	if c.Kind == "port-released" || c.Kind == "send-fails" || c.Kind == "late-wrong-reply" || c.Kind == "tcp-peer-holds-connection" || c.Kind == "no-descriptors" || c.Kind == "multicast-broadcast" || c.Kind == "generous-timeout" || c.Kind == "argument-sockets" {
 		ev.Case("scenario/"+c.Kind, true, fmt.Sprintf("%+v", c))
 	} else {
 		ev.Case(fmt.Sprintf("scenario/%s/reply-%s", c.Kind, map[bool]string{true: "in-time", false: "after-deadline"}[c.ReplyPct <= 80]), true, fmt.Sprintf("%+v", c))
@@ -703,6 +770,9 @@ func sweepScenarios(yield func(scenario) bool) {
 	}
 	cases = append(cases, scenario{Kind: "multicast-broadcast", Op: "GetTime", TimeoutMs: 400}, scenario{Kind: "multicast-broadcast", Op: "GetDevices", TimeoutMs: 300, Debug: true})
 	cases = append(cases, scenario{Kind: "no-descriptors", Op: "GetTime", TimeoutMs: 300}, scenario{Kind: "no-descriptors", Op: "OpenDoor", TimeoutMs: 200, Debug: true})
+	for i, op := range []string{"SetListener", "SetAddress", "SetListener"} {
+		cases = append(cases, scenario{Kind: "argument-sockets", Op: op, Path: []string{"udp", "tcp", "broadcast"}[i], TimeoutMs: 3000, Debug: i == 2})
+	}
 	// timeouts of a day .. 'for ever' with a prompt reply (milliseconds; 2^31 ms = 24.9 days, 2^32 ms = 49.7 days)
 	generous := []int{86_400_000, 2_147_483_647, 2_147_483_648, 2_592_000_000, 3_888_000_000, 4_294_967_296, 4_294_967_297, 6_442_450_944, 31_536_000_000, 4_611_686_018_427, 9_223_372_036_854}
 	for i, ms := range generous {
